@@ -1,9 +1,10 @@
 #!/bin/bash
 # development tool: apply each harmless refactor to /repo, run every quick check (expect exit 0), undo.
 cd /verif
-out=selftest/harmless/results.txt
+pat=${1:-H}
+out=selftest/harmless/results${1:+-$1}.txt
 : > $out
-for d in selftest/harmless/H*.diff; do
+for d in selftest/harmless/${pat}*.diff; do
   [ -n "$(git -C /repo status --short)" ] && { echo "repo not clean"; exit 1; }
   git -C /repo apply /verif/$d || { echo "$d does not apply" >> $out; continue; }
   s=$(cd /repo && /venv/bin/python -m pytest -q -p no:cacheprovider --timeout=900 2>&1 | tail -1)
